@@ -220,6 +220,39 @@ impl Scenario {
 		}
 		sc
 	}
+	/// A star: payer 0, payee 1, k+1 intermediaries each joined to both by free channels that carry exactly
+	/// floor(amount/k) (so that no k of them deliver an amount that is not a multiple of k), and one more
+	/// intermediary with roomy channels that charge a fee. Queries ask for amounts around k and k+1 parts
+	/// with max_path_count = k: the part-count limit is binding.
+	fn star(gi: u64, rng: &mut Rng) -> (Scenario, Vec<Query>) {
+		let k = 2 + rng.below(4) as usize; // allowed parts
+		let m = *rng.pick(&[1_000u64, 33_333, 250_001, 1_000_000]) + rng.below(3);
+		let n = k + 4;
+		let mut sc = Scenario { key_seed: gi + 1, n_public: n, n_extra: 0, slack: false, chans: BTreeMap::new() };
+		let keys = sc.keys();
+		let mut scid = 1000u64;
+		let mut add = |sc: &mut Scenario, a: usize, b: usize, max: u64, base: u32, prop: u32| {
+			let (ida, idb) = (NodeId::from_pubkey(&keys[a]), NodeId::from_pubkey(&keys[b]));
+			let (lo, hi) = if ida < idb { (a, b) } else { (b, a) };
+			let pol = Some(Pol { enabled: true, cltv: 18, min: 0, max, base, prop });
+			sc.chans.insert(scid, Chan { a: lo, b: hi, cap_sat: None, pol: [pol, pol] });
+			scid += 1;
+		};
+		for x in 2..(k + 3) {
+			add(&mut sc, 0, x, m, 0, 0);
+			add(&mut sc, x, 1, m, 0, 0);
+		}
+		let big = k + 3;
+		let with_big = rng.chance(2, 3);
+		if with_big {
+			add(&mut sc, 0, big, 100 * m * (k as u64 + 2), 0, 0);
+			add(&mut sc, big, 1, 100 * m * (k as u64 + 2), *rng.pick(&[1u32, 1000]), *rng.pick(&[0u32, 1000]));
+		}
+		let km = k as u64 * m;
+		let amounts = [km - 1, km, km + 1, km + m / 2, km + m - 1, km + m];
+		let qs = amounts.iter().map(|amt| Query { payer: 0, payee: 1, amt: *amt, mpp: true, first: None, hints: vec![], blinded: vec![], failed_blinded: vec![], final_cltv: 18, max_path_count: Some(k as u8), max_path_length: None, max_total_cltv: None, saturation: Some(0), excluded: vec![], fee_limit: Some(None), scorer_mode: rng.below(2), fixed_penalty: *rng.pick(&[0u64, 500]), seed_bytes: rng.bytes() }).collect();
+		(sc, qs)
+	}
 	/// Feed the scenario to a fresh NetworkGraph through the public gossip API.
 	fn build(&self, rep: &mut Report, now: u32) -> NetworkGraph<NullLogger> {
 		let chain = ChainHash::using_genesis_block(Network::Regtest);
@@ -723,6 +756,28 @@ fn main() {
 			}
 		}
 		let ctx = Ctx { args: &args, gi };
+		if (gi / 16) % 12 == 5 {
+			// the part-count boundary
+			let (sc, qs) = Scenario::star(gi, rng);
+			let graph = sc.build(rep, now);
+			let prob = ProbabilisticScorer::new(ProbabilisticScoringDecayParameters::default(), &graph, NullLogger);
+			let inflight = InFlightHtlcs::new();
+			for (qi, q) in qs.iter().enumerate() {
+				if let Some(d) = args.kv.get("dump_witness") {
+					if d == &format!("{}:{}", gi, qi) {
+						println!("{}", witness_text(&sc, q));
+					}
+				}
+				rep.count("part_count_boundary_queries");
+				if let Some(r) = run_query(&ctx, rep, &sc, q, &graph, &prob, &inflight, None) {
+					rep.count("part_count_boundary_routes");
+					if r.paths.len() == q.max_path_count.unwrap() as usize {
+						rep.count("part_count_boundary_routes_using_every_allowed_part");
+					}
+				}
+			}
+			return;
+		}
 		let sc = Scenario::gen(gi, rng, args.thorough());
 		let graph = sc.build(rep, now);
 		let keys = sc.keys();
